@@ -39,6 +39,10 @@ def gen(rng, family=None):
         u = J.rand_unit(rng, i, project, path_dir="")
         u.path = u.path.lstrip("/")
         units.append(u)
+    if rng.random() < 0.12:
+        # a longer class whose two overloads sit at positions that read the same in decimal (4,16 and 41,6)
+        cu = J.colliding_unit(rng, "com.coll", "Tally")
+        if cu is not None: units.append(cu)
     order = C01.walk_order([u.path for u in units])
     for p in order:
         u = next(x for x in units if x.path == p)
